@@ -78,7 +78,7 @@ type NodeOut struct {
 }
 
 func relConfig(seed int64) chainsim.Config {
-	return chainsim.Config{Seed: seed, NKeys: 18,
+	return chainsim.Config{Seed: seed, NKeys: 30,
 		Balances:  map[int]int64{0: 40000000, 1: 40000000, 2: 20000000, 3: 20000000, 4: 5000000, 5: 300000, 6: 30000, 7: 30000000, 8: 100000, 9: 100000, 10: 100000, 11: 100000, 12: 100000},
 		Nodes:     []chainsim.NodeSpec{{Key: 0, Output: -1, Tokens: 5000000, Chains: []string{"0001"}}, {Key: 1, Output: -1, Tokens: 3000000, Chains: []string{"0001", "0002"}}},
 		Apps:      []chainsim.AppSpec{{Key: 3, Tokens: 2000000, Chains: []string{"0001", "0002"}}},
